@@ -261,9 +261,11 @@ def check_is_keyword_upper(ctx):
 
 
 ACCEPTED_NEWLINE = {
-    # keyed by (outer function, role): the predicate handed to token_not_matching in group_comments, however it is written
-    ('engine.grouping.group_comments', 'token_not_matching predicate'):
-        'extent of a comment run: line breaks between consecutive comments belong to the Comment group (only whitespace leaves move)',
+    # (the predicate handed to token_not_matching in group_comments was accepted here for a while with the reason "only whitespace
+    # leaves move".  That is not what happens: `/* a */\n/* b */` becomes one flat Comment[a, nl, b] while `/* a */ /* b */` becomes
+    # Comment[a, ws, Comment[b]] (align_comments nests the second group), and a line break directly behind a comment is pulled into
+    # the Comment group while a blank is not.  The tree shape depends on the kind of whitespace: a violation, listed in
+    # known_findings.json, not an accepted idiom.)
 }
 
 
@@ -307,4 +309,4 @@ def check_newline_sensitivity(ctx):
             else:
                 ctx.ob('R11.7', key, f'{f.mod.relpath}:{x.lineno}', 'the parse path does not distinguish line breaks from other whitespace', False,
                        f'`{hit}` in {f.short}: replacing a line break by a blank (or the reverse) changes statement boundaries or the tree')
-    ctx.ob('R11.7', 'inventory', 'sqlparse/engine/grouping.py', f'{n} newline-sensitive site(s) in the parse path, all accepted', True)
+    ctx.ob('R11.7', 'inventory', 'sqlparse/engine/grouping.py', f'{n} newline-sensitive site(s) in the parse path examined', True)
